@@ -47,6 +47,30 @@ def dispatch (j : Json) : Except String Json := do
   | "crash" => Driver.Crash.handle j
   | _ => throw s!"unknown stream {stream}"
 
+/-- Redundant entry points (deprecated wrappers, accessors, package-level forms of methods) are not
+modelled one by one: the model's statement about them is that they agree with the primary entry point
+it does model.  The harness compares them in-process and lists every discrepancy in `obs.aux`; a
+non-empty list is a disagreement with the model and a failure of the clause `api-consistency`. -/
+def auxFailure (j : Json) : Option String :=
+  match j.getObjVal? "obs" with
+  | .ok obs => match obs.getObjVal? "aux" with
+    | .ok (Json.arr a) => match a.toList with
+      | (Json.str s) :: _ => some s
+      | _ :: _ => some "?"
+      | [] => none
+    | _ => none
+  | _ => none
+
+def withAux (j : Json) (v : Json) : Json :=
+  match auxFailure j with
+  | none => v
+  | some what =>
+    let judge := match v.getObjVal? "judge" with
+      | .ok (Json.str "ok") => Json.str s!"api-consistency: {what}"
+      | .ok x => x
+      | _ => Json.str s!"api-consistency: {what}"
+    (v.setObjVal! "agree" (Json.bool false)).setObjVal! "judge" judge
+
 partial def loop (hin hout : IO.FS.Stream) : IO Unit := do
   let line ← hin.getLine
   if line.isEmpty then return ()
@@ -55,7 +79,7 @@ partial def loop (hin hout : IO.FS.Stream) : IO Unit := do
     | .error e => Json.mkObj [("error", Json.str s!"parse: {e}")]
     | .ok j =>
       match dispatch j with
-      | .ok v => v
+      | .ok v => withAux j v
       | .error e => Json.mkObj [("error", Json.str e)]
   hout.putStrLn out.compress
   loop hin hout
